@@ -431,6 +431,14 @@ func isBisyncMirroredTransaction(cmds []bisyncAofCommand) bool {
 	if len(cmds) == 0 {
 		return false
 	}
+	// A master that finds the previous marker logically expired (BisyncMarkerTTL) but
+	// not reaped yet deletes it while executing the marker's SET and propagates that
+	// DEL/UNLINK of the same key inside the transaction, in front of the SET.
+	if len(cmds) > 1 && len(cmds[0].Args) == 1 && len(cmds[1].Args) > 0 && bytes.Equal(cmds[0].Args[0], cmds[1].Args[0]) {
+		if c := strings.ToLower(cmds[0].Cmd); c == "del" || c == "unlink" {
+			cmds = cmds[1:]
+		}
+	}
 	return isBisyncMarkerCommand(cmds[0])
 }
 
